@@ -136,7 +136,11 @@ def qe_asarray(qe, wave, waveunit):
     # Ensure qe is well-formed
     wave = np.asarray(wave)
     if not isinstance(qe, lentil.radiometry.Spectrum):
+        # an efficiency is a real number whatever the type of the array it is
+        # written in (a boolean pass-band, small integers): the charge is then
+        # never accumulated in a narrow type
         qe = np.asarray(qe)
+        qe = qe.astype(np.result_type(qe.dtype, float))
         if qe.shape == ():
             qe = qe*np.ones(wave.size)
         else:
